@@ -6,6 +6,7 @@
 //   case <k> <kind> n=<routers> edges=<m>
 //   node n<idx> <hash> <name>   ids below are n<idx> for these, raw decimal hashes otherwise (0 = none)
 //   ev rup <i> | ev rdown <i> | ev up <i> <j> | ev dead <i> <j> | ev fetch <i> <j>
+//   ev late <i> <j>             the ribUpdate started for neighbour j runs only now, after the preceding `ev dead i j`
 //   ev snap <j>                 store j's current advertisement;  ev deliver <i> <j>: i processes the stored one
 //   obs <i> <dirty 0|1|x> nb=<j,j,..|-> rib=<entry;entry..|-> adv=<d/nh/cost/other;..|-> ent=<d/cost/nh;..|->
 //        entry = d/nh1/l1/nh2/l2/dirty/h=c,h=c..      (everything sorted by key)
@@ -80,6 +81,7 @@ type world struct {
 	rounds     int              // complete rounds since the last topology change
 	roundStart int              // evc at the start of the current round
 	slots      map[int]snapshot // latest stored advertisement per sender
+	lastAdv    map[int]*tlv.Advertisement // the last advertisement of a router that went down (for late updates)
 	need       map[[2]int]bool  // (i, j): j announced a change (or is new to i) that i has not fetched yet
 	delivered  bool             // some stored advertisement was delivered so far
 	unclean    bool             // the history so far is not a loss-free history of atomic fetches followed by valid rounds
@@ -282,6 +284,10 @@ func (w *world) evRdown(i int) {
 	w.unclean = true
 	if w.rt[i] != nil {
 		w.settle()
+		if w.lastAdv == nil {
+			w.lastAdv = map[int]*tlv.Advertisement{}
+		}
+		w.lastAdv[i] = w.advertOf(i)
 		w.rt[i].Vf18StopNfdc()
 		w.rt[i] = nil
 		w.nbr[i] = map[int]bool{}
@@ -333,6 +339,40 @@ func (w *world) evDead(i, j int) {
 	w.rt[i].Vf18CheckDead()
 	delete(w.nbr[i], j)
 	delete(w.need, [2]int{i, j})
+	w.settle()
+	d := w.dirtyOf(i)
+	if d == "1" {
+		w.announce(i)
+	}
+	w.obs(i, d)
+}
+
+// The interleaving of advertDataHandler and checkDeadNeighbors in which the dead sweep wins the lock:
+// advertDataHandler has stored j's advertisement in the neighbour object and started `go dv.ribUpdate(ns)`;
+// the sweep removes j (and deletes the object) first; then the pending ribUpdate runs on the object it holds.
+func (w *world) evDeadLate(i, j int) {
+	if w.rt[i] == nil || !w.nbr[i][j] {
+		w.evDead(i, j)
+		return
+	}
+	var adv *tlv.Advertisement
+	if w.rt[j] != nil {
+		adv = w.advertOf(j)
+	} else if a, ok := w.lastAdv[j]; ok {
+		adv = a
+	}
+	if adv == nil {
+		w.evDead(i, j)
+		return
+	}
+	ns := w.rt[i].Vf18StoreAdvert(w.names[j], adv)
+	w.evDead(i, j)
+	if ns == nil {
+		return
+	}
+	fmt.Fprintf(w.w, "ev late %s %s\n", w.id(w.hash[i]), w.id(w.hash[j]))
+	w.evc++
+	w.rt[i].Vf18RibUpdateNs(ns)
 	w.settle()
 	d := w.dirtyOf(i)
 	if d == "1" {
@@ -584,7 +624,11 @@ func (w *world) detectAll() {
 		}
 		sort.Ints(js)
 		for _, j := range js {
-			w.evDead(i, j)
+			if w.r.Intn(2) == 0 {
+				w.evDeadLate(i, j)
+			} else {
+				w.evDead(i, j)
+			}
 			w.someFetches(w.r.Intn(3))
 		}
 	}
@@ -640,10 +684,18 @@ func (w *world) fault(edges [][2]int) {
 			return
 		}
 		p := ps[w.r.Intn(len(ps))]
-		w.evDead(p[0], p[1])
+		if w.r.Intn(3) == 0 {
+			w.evDeadLate(p[0], p[1])
+		} else {
+			w.evDead(p[0], p[1])
+		}
 		w.someFetches(w.r.Intn(6))
 		if w.rt[p[1]] != nil && w.nbr[p[1]][p[0]] && w.r.Intn(8) != 0 {
-			w.evDead(p[1], p[0])
+			if w.r.Intn(3) == 0 {
+				w.evDeadLate(p[1], p[0])
+			} else {
+				w.evDead(p[1], p[0])
+			}
 		}
 	case 2: // link (re-)addition
 		i, j := w.r.Intn(w.n), w.r.Intn(w.n)
@@ -931,9 +983,11 @@ func TestReplay(t *testing.T) {
 				w.nbr[i] = map[int]bool{}
 			}
 		}
-		for _, line := range strings.Split(string(ops), "\n") {
+		lines := strings.Split(string(ops), "\n")
+		skip := -1
+		for li, line := range lines {
 			p := strings.Fields(line)
-			if len(p) == 0 {
+			if len(p) == 0 || li == skip {
 				continue
 			}
 			switch p[0] {
@@ -958,7 +1012,23 @@ func TestReplay(t *testing.T) {
 				case "up":
 					w.evUp(idx(p[2]), idx(p[3]))
 				case "dead":
-					w.evDead(idx(p[2]), idx(p[3]))
+					// `ev dead i j` directly followed by `ev late i j`: the sweep overtook a pending ribUpdate
+					late := false
+					for q := li + 1; q < len(lines); q++ {
+						f := strings.Fields(lines[q])
+						if len(f) >= 2 && f[0] == "ev" {
+							if len(f) == 4 && f[1] == "late" && f[2] == p[2] && f[3] == p[3] {
+								late = true
+								skip = q
+							}
+							break
+						}
+					}
+					if late {
+						w.evDeadLate(idx(p[2]), idx(p[3]))
+					} else {
+						w.evDead(idx(p[2]), idx(p[3]))
+					}
 				case "fetch":
 					w.evFetch(idx(p[2]), idx(p[3]))
 				case "snap":
